@@ -68,7 +68,7 @@ def _rt_trees(ctx):
 def g_rt_mir(ctx):
     F = _rt_facts(ctx)
     size, bal = rules_rt.rule_size_bal(F)
-    out = [rules_rt.rule_mapfree(F), rules_rt.rule_freeze(F), rules_rt.rule_unsafe(F), rules_rt.rule_cborder(F), rules_rt.rule_len(F),
+    out = [rules_rt.rule_mapfree(F), rules_rt.rule_share(F), rules_rt.rule_freeze(F), rules_rt.rule_unsafe(F), rules_rt.rule_cborder(F), rules_rt.rule_len(F),
            size, bal, rules_rt.rule_sym(F), rules_rt.rule_kahn(F)]
     for r in out:
         r.counts["mir_bodies"] = len(F.bodies)
@@ -167,7 +167,7 @@ RULE_GROUP = {
     "M-DIGEST": "cc_digest", "M-PANIC": "cc_diag", "M-LINES": "cc_diag", "M-LOCS": "cc_diag", "M-DET": "cc_det", "M-PAR": "cc_det", "M-DIRTAINT": "cc_det",
     "M-FUNCDOM": "cc_misc", "M-EMIT": "cc_misc", "M-DETRT": "rt_det", "T-X": "x", "T-DET": "x", "T-TYPECHECK": "typecheck",
     "M-MAPFREE": "rt_mir", "M-FREEZE": "rt_mir", "M-UNSAFE": "rt_mir", "M-CBORDER": "rt_mir", "M-LEN": "rt_mir", "M-SIZE": "rt_mir",
-    "M-BAL": "rt_mir", "M-SYM": "rt_mir", "M-KAHN": "rt_mir", "M-UF": "rt_syn", "S-SIB": "rt_syn", "S-PRUNE": "rt_syn", "S-NAV": "rt_syn", "S-LEAF": "rt_syn",
+    "M-BAL": "rt_mir", "M-SHARE": "rt_mir", "M-SYM": "rt_mir", "M-KAHN": "rt_mir", "M-UF": "rt_syn", "S-SIB": "rt_syn", "S-PRUNE": "rt_syn", "S-NAV": "rt_syn", "S-LEAF": "rt_syn",
     "T-API": "api", "T-ALLOC": "api", "T-ENUM": "api",
 }
 
@@ -183,15 +183,15 @@ def groups_of(rule):
 # T-INS/T-MOVE/T-CANON but keyed T-DIAG:..).
 PROPERTIES = {
     "C01": {
-        "rules": ["T-PLAN", "T-SEMI", "T-LOOP", "T-DELTA", "T-DIRTY", "T-CANON", "T-INS", "T-MOVE", "T-DIAG", "T-FUNC", "T-AGE", "T-FLAT"],
+        "rules": ["T-PLAN", "T-SEMI", "T-LOOP", "T-DELTA", "T-DIRTY", "T-CANON", "T-INS", "T-MOVE", "T-DIAG", "T-FUNC", "T-AGE", "T-FLAT", "S-SIB", "S-LEAF", "S-NAV", "S-PRUNE"],
         "level": "translation_validation",
     },
-    "C02": {"rules": ["T-PLAN", "T-DIAG", "T-INS", "T-MOVE", "T-CANON", "T-LOOP", "T-API", "T-ALLOC", "T-FLAT"], "level": "translation_validation"},
-    "C03": {"rules": ["T-SEMI", "T-MOVE", "T-CANON", "T-LOOP", "T-INS", "T-DIAG", "T-AGE"], "level": "translation_validation"},
-    "C04": {"rules": ["T-FAM", "T-INS", "T-MOVE", "T-CANON", "T-DIAG", "T-DIRTY", "T-API", "T-ENUM", "T-MOR"], "level": "translation_validation"},
+    "C02": {"rules": ["T-PLAN", "T-DIAG", "T-INS", "T-MOVE", "T-CANON", "T-LOOP", "T-API", "T-ALLOC", "T-FLAT", "S-SIB", "S-LEAF", "S-NAV"], "level": "translation_validation"},
+    "C03": {"rules": ["T-SEMI", "T-MOVE", "T-CANON", "T-LOOP", "T-INS", "T-DIAG", "T-AGE", "S-SIB", "S-LEAF", "S-PRUNE"], "level": "translation_validation"},
+    "C04": {"rules": ["T-FAM", "T-INS", "T-MOVE", "T-CANON", "T-DIAG", "T-DIRTY", "T-API", "T-ENUM", "T-MOR", "S-SIB", "S-LEAF", "S-NAV"], "level": "translation_validation"},
     "C05": {"rules": ["T-API", "T-INS", "M-UF"], "level": "other"},
-    "C08": {"rules": ["S-SIB", "S-PRUNE", "S-LEAF", "T-PRUNE-USE", "M-FREEZE", "M-UNSAFE", "M-MAPFREE", "M-CBORDER"], "level": "other"},
-    "C14": {"rules": ["M-FREEZE", "M-UNSAFE", "M-MAPFREE", "M-CBORDER", "M-LEN", "M-SIZE", "M-BAL", "S-NAV"], "level": "other"},
+    "C08": {"rules": ["S-SIB", "S-PRUNE", "S-LEAF", "T-PRUNE-USE", "M-FREEZE", "M-UNSAFE", "M-MAPFREE", "M-SHARE", "M-CBORDER"], "level": "other"},
+    "C14": {"rules": ["M-FREEZE", "M-UNSAFE", "M-MAPFREE", "M-SHARE", "M-CBORDER", "M-LEN", "M-SIZE", "M-BAL", "S-NAV"], "level": "other"},
     "C18": {"rules": ["M-SYM", "M-KAHN", "T-MOR"], "level": "other"},
     "C06": {"rules": ["T-ALLOC", "M-FUNCDOM", "T-DIRTY", "T-MOVE", "T-CANON", "S-PRUNE"], "level": "other"},
     "C09": {"rules": ["T-TYPECHECK", "T-ENV", "T-X", "T-DELTA"], "level": "translation_validation"},
